@@ -1,2 +1,86 @@
-/- Oracle for C03 (stub: replaced when the property's model is built). -/
-def main : IO Unit := pure ()
+/-
+  Oracle for C03: answers the harness' A/I lines from BMV.Encode.
+    R ok <word> mw=<maxWord> | R err | R unmodelled
+    D <tokens> | D err | D -           disassembly (by the model) of the word the *model* produced
+    RA ok <word> | RA err | RA -       model re-assembly of that disassembly
+-/
+import BMV.Encode
+import BMV.Lines
+open BMV BMV.Bits BMV.Encode BMV.Lines
+
+def parseMode (s : String) : Mode :=
+  if s = "vn" then .vn else if s = "hy" then .hy else .ha
+
+/-- strict decimal: digits only (what strconv/regexp accept for the plain notation) -/
+def decimal? (s : String) : Option Nat :=
+  if s.isEmpty then none else if s.all Char.isDigit then s.toNat? else none
+
+/-- token → operand: inverse of Get_register_name / Get_input_name / Get_output_name (lower case,
+    canonical decimal without leading zeros since Go compares the *name strings*) -/
+def canonical? (s : String) : Option Nat :=
+  match decimal? s with
+  | some k => if toString k = s then some k else none
+  | none => none
+
+def parseOperand (t : String) : Operand :=
+  if t.startsWith "r" then
+    match canonical? (t.drop 1).toString with | some k => .reg k | none => .bad
+  else if t.startsWith "i" then
+    match canonical? (t.drop 1).toString with | some k => .inp k | none => .bad
+  else if t.startsWith "o" then
+    match canonical? (t.drop 1).toString with | some k => .out k | none => .bad
+  else match decimal? t with
+    | some n => .num n
+    | none => .bad
+
+def showOperand : Operand → String
+  | .reg k => s!"r{k}"
+  | .inp k => s!"i{k}"
+  | .out k => s!"o{k}"
+  | .num n => toString n
+  | .bad => "?"
+
+def parseArch (fs : List String) : Option Arch :=
+  match fs with
+  | [rs, r, n, m, l, o, mode, ws, ops] =>
+    let opl := (ops.drop 4).toString
+    some { rsize := nat! rs, r := nat! r, n := nat! n, m := nat! m, l := nat! l, o := nat! o,
+           mode := parseMode mode, wordSize := nat! ws,
+           ops := if opl = "" then [] else opl.splitOn "," }
+  | _ => none
+
+def step (a : Arch) (line : String) : Arch × List String :=
+  let fs := fields line
+  match fs with
+  | "A" :: rest =>
+    match parseArch rest with
+    | some a' =>
+      let ls := a'.ops.map fun op =>
+        match declLayout op with
+        | some _ => s!"L {op} {a'.instrLen op}"
+        | none => s!"L {op} ?"
+      (a', [line] ++ ls ++ [s!"MW {a'.maxWord}"])
+    | none => (a, ["bad-arch"])
+  | "I" :: op0 :: toks0 =>
+    -- Assembler_process_line lower-cases the whole line first
+    let op := op0.toLower
+    let toks := toks0.map String.toLower
+    let i : Instr := ⟨op, toks.map parseOperand⟩
+    match asm a i with
+    | .error .unmodelled => (a, [line, "R unmodelled", "D -", "RA -"])
+    | .error _ => (a, [line, "R err", "D -", "RA -"])
+    | .ok w =>
+      let r := s!"R ok {toString01 w} mw={a.maxWord}"
+      match disasm a w with
+      | none => (a, [line, r, "D err", "RA -"])
+      | some i' =>
+        let d := "D " ++ " ".intercalate (i'.op :: i'.args.map showOperand)
+        match asm a i' with
+        | .ok w' => (a, [line, r, d, s!"RA ok {toString01 w'}"])
+        | .error _ => (a, [line, r, d, "RA err"])
+  | "I" :: [] => (a, [line, "R empty", "D -", "RA -"])
+  | _ => (a, [])
+
+def main : IO Unit := do
+  let a0 : Arch := { rsize := 8, r := 1, n := 0, m := 0, l := 0, o := 1, ops := [] }
+  let _ ← foldStdin a0 step
